@@ -79,15 +79,18 @@ mod verif_replay_authorize {
 '''
 
 
-def authorize_case(test_name, ip, port, elevated, rules_present, allowed, mode, expect_pred, why):
+def authorize_case(test_name, ip, port, elevated, rules_present, allowed, mode, expect_pred, why, url_path=None):
+    url = "http://localhost/verif?x=1"
+    if url_path and url_path.startswith("/") and all(32 < ord(c) < 127 and c not in '"\\ ' for c in url_path):
+        url = "http://localhost" + url_path
     return '''
     #[test]
     fn %s() {
         let mut logger = ConnectionLogger::new(0, 0);
         let r = crate::proxy::proxy_authorizer::authorize(
-            "%s".to_string(), %d, &mut logger, hyper::Uri::from_str("http://localhost/verif?x=1").unwrap(),
+            "%s".to_string(), %d, &mut logger, hyper::Uri::from_str("%s").unwrap(),
             claims(%s), rules(%s, %s, "%s"));
         assert!(%s, "%s: got {}", name(&r));
     }
-''' % (test_name, ip, port, "true" if elevated else "false", "true" if rules_present else "false",
+''' % (test_name, ip, port, url, "true" if elevated else "false", "true" if rules_present else "false",
        "true" if allowed else "false", mode, expect_pred, why)
